@@ -12,8 +12,73 @@
 -/
 import ScionTime.Proofs.ListenerTx
 import ScionTime.Props.C06
+import ScionTime.Gen.Server
+import ScionTime.Gen.Udp
 namespace ScionTime.Props.C06Tx
 open ScionTime.Time64 ScionTime.Server ScionTime.ListenerTx ScionTime.Props.C06
+
+/-! ### pins: the statements in the sources are the modelled ones (re-read from /repo on every run
+    by harness/extract/x_c06tx.go; log statements left out) -/
+
+/-- what follows the write-error check in the NTP branches: read, skip timestamps of earlier
+    datagrams, the three-way bookkeeping with both fallbacks `txt1 = txt0`, the store update -/
+def srcPostSendNtp : String :=
+  "txt1, id, err := udp.ReadTXTimestamp(conn) ;; for err == nil && int32(id-txid) < 0 { txt1, id, err = udp.ReadTXTimestamp(conn) } ;; if err != nil { txt1 = txt0 txid++ } else if id != txid { txt1 = txt0 txid = id + 1 } else { txid++ } ;; updateTXTimestamp(clientID, rxt, &txt1)"
+/-- the same in the SCMP and forwarding branches (the timestamp itself is discarded) -/
+def srcPostSendAux : String :=
+  "_, id, err := udp.ReadTXTimestamp(conn) ;; for err == nil && int32(id-txid) < 0 { _, id, err = udp.ReadTXTimestamp(conn) } ;; if err != nil { txid++ } else if id != txid { txid = id + 1 } else { txid++ }"
+
+/-- every send site of the listeners is followed by exactly this step (`sendRead code`): one
+    send site in `runIPServer`; three in `runSCIONServer` — SCMP reply, forwarded packet, NTP reply -/
+theorem C06_pin_txPostSend :
+    Gen.Server.txSendSites_runIPServer = 1 ∧ Gen.Server.txPostSend_runIPServer = [srcPostSendNtp] ∧
+    Gen.Server.txSendSites_runSCIONServer = 3 ∧
+    Gen.Server.txPostSend_runSCIONServer = [srcPostSendAux, srcPostSendAux, srcPostSendNtp] :=
+  ⟨rfl, rfl, rfl, rfl⟩
+
+/-- `txid` is changed by these statements only (`decide3`: `txid++`, `txid = id + 1`, `txid++` per
+    send site) and its address is never taken -/
+theorem C06_pin_txidAssignments :
+    Gen.Server.txidAssignments_runIPServer = ["txid++", "txid = id + 1", "txid++"] ∧
+    Gen.Server.txidAssignments_runSCIONServer =
+      ["txid++", "txid = id + 1", "txid++", "txid++", "txid = id + 1", "txid++", "txid++", "txid = id + 1", "txid++"] := by
+  decide
+
+/-- C03: no statement after a send reads the clock (the model's step after the write has no
+    clock input) -/
+theorem C03_pin_noClockAfterSend :
+    Gen.Server.fact_noClockAfterSend_runIPServer = true ∧ Gen.Server.fact_noClockAfterSend_runSCIONServer = true := by
+  decide
+
+/-- C09: every `return` of the closure handed to `RawConn.Read` is `return true` — the runtime
+    never re-runs it, one call is one bounded poll — and the poll waits `pollTimeoutMs` = 1 ms
+    for `POLLPRI` on the one descriptor -/
+theorem C09_pin_readTxGivesUp :
+    Gen.Udp.fact_readTxClosureAlwaysDone = true ∧
+    Gen.Udp.readTxPollArgs = ["pollFds", toString pollTimeoutMs] ∧ Gen.Udp.readTxPollEvents = "unix.POLLPRI" := by
+  decide
+
+/-- the closure of `ReadTXTimestamp`, statement by statement, is what `readTX` models: poll (EINTR
+    retried), error exit, time-out exit with `errTimestampNotFound`, recvmsg on the error queue
+    (EINTR retried), error exit, the three `errUnexpectedData` exits, the control-message walk -/
+theorem C06_pin_readTxClosure :
+    Gen.Udp.readTxClosure =
+      ["pollFds := []unix.PollFd{{Fd: int32(fd), Events: unix.POLLPRI}}",
+       "var n int",
+       "for { n, err = unix.Poll(pollFds, 1) if err == unix.EINTR { continue } break }",
+       "if err != nil { res.err = err return true }",
+       "if n != len(pollFds) { res.err = errTimestampNotFound return true }",
+       "buf := make([]byte, 0)",
+       "oob := make([]byte, 128)",
+       "var oobn, flags int",
+       "var srcAddr unix.Sockaddr",
+       "for { n, oobn, flags, srcAddr, err = unix.Recvmsg(int(fd), buf, oob, unix.MSG_ERRQUEUE) if err == unix.EINTR { continue } break }",
+       "if err != nil { res.err = err return true }",
+       "if n != 0 { res.err = errUnexpectedData return true }",
+       "if flags != unix.MSG_ERRQUEUE { res.err = errUnexpectedData return true }",
+       "if srcAddr != nil { res.err = errUnexpectedData return true }",
+       "res.ts, res.id, res.err = timestampFromOOBData(oob[:oobn])",
+       "return true"] := rfl
 
 /-! ### `udp.ReadTXTimestamp` -/
 
